@@ -42,6 +42,15 @@ func NewStarvingMutex() *StarvingMutex {
 	return fm
 }
 
+// initConds makes the zero value usable: the conditions of a StarvingMutex that was not created with NewStarvingMutex
+// get their locker the first time somebody could have to wait (the caller holds f.mutex).
+func (f *StarvingMutex) initConds() {
+	if f.readerCond.L == nil {
+		f.readerCond.L = &f.mutex
+		f.writerCond.L = &f.mutex
+	}
+}
+
 // RLock locks starving mutex for reading.
 //
 // It should not be used for recursive read locking.
@@ -49,6 +58,8 @@ func NewStarvingMutex() *StarvingMutex {
 func (f *StarvingMutex) RLock() {
 	f.mutex.Lock()
 	defer f.mutex.Unlock()
+
+	f.initConds()
 
 	var doneChan chan types.Empty
 	if debug.GetEnabled() {
@@ -104,6 +115,8 @@ func (f *StarvingMutex) RUnlock() {
 func (f *StarvingMutex) Lock() {
 	f.mutex.Lock()
 	defer f.mutex.Unlock()
+
+	f.initConds()
 
 	var doneChan chan types.Empty
 	if debug.GetEnabled() {
